@@ -119,6 +119,22 @@ def forms_program():
     )
     F.append(
         fn(
+            "auglist",
+            ["p"],
+            [
+                ["bind", "x", ["seq", 2, "list"]],
+                ["bind", "y", var("x")],
+                ["aug", "x", ["seq", 1, "tuple"]],
+                use("x", "y"),
+                ["bind", "s", ["seq", 1, "set"]],
+                ["bind", "t", var("s")],
+                ["ifx", ["const", True], [["aug", "t", ["seq", 0, "list"]]], []],
+                ["ret", var("y")],
+            ],
+        )
+    )
+    F.append(
+        fn(
             "ann",
             ["p"],
             [
